@@ -168,16 +168,16 @@ func createXmlNamespaces(attrs []xml.Attr) []XmlNamespace {
 	ret = append(ret, ns)
 
 	for _, i := range attrs {
-		if i.Name.Space == "" && i.Name.Local == xmlns {
+		if i.Name.Space == xmlns {
+			// xmlns:prefix="..."
 			ns = XmlNamespace{
-				prefix: "",
+				prefix: i.Name.Local,
 				value:  i.Value,
 			}
 
 			ret = append(ret, ns)
-		}
-
-		if i.Name.Local == xmlns {
+		} else if i.Name.Local == xmlns {
+			// xmlns="..."
 			ns = XmlNamespace{
 				prefix: i.Name.Space,
 				value:  i.Value,
